@@ -159,6 +159,10 @@ func (a *ad[T, L]) set(i int, v val) { a.setf(a.l, i, a.to(v)) }
 func (a *ad[T, L]) get(i int) val    { return a.from(a.getf(a.l, i)) }
 func (a *ad[T, L]) size() int        { return a.l.Size() }
 func (a *ad[T, L]) toArr() []val {
+	// Sort() of the Long/Float/Double/String lists has an empty body: it must leave the list alone
+	if s, ok := any(a.l).(interface{ Sort() }); ok {
+		s.Sort()
+	}
 	xs := a.l.ToArray()
 	out := make([]val, len(xs))
 	for i, x := range xs {
@@ -475,6 +479,11 @@ func execK(ops []string) []string {
 				} else {
 					res = valStr(e.Value)
 				}
+			case "ts":
+				res = "s" + val{s: l.ToString()}.str('s')
+			case "es":
+				k, _ := strconv.Atoi(f[1])
+				res = "s" + val{s: nth(k).ToString()}.str('s')
 			default:
 				panic("bad op " + op)
 			}
